@@ -17,7 +17,8 @@ def filt(repo_src, dst):
     txt += cify.cify(f, P, 'PoseidonGoldilocks::linear_hash_avx512', 'PoseidonGoldilocks_linear_hash_avx512', ren512, {0: 'LOOP_CONTRACT_SPONGE512'})
     f.files = {'gen_linear_hash.c': txt}
     return f
-GROUPS = {'m2': Group('m2', filt, c=['props/C07/contracts.c'], repo_cpp=[]), 'm2_512': Group('m2_512', filt, c=['props/C07/contracts.c'], defines=['VF_AVX512'], repo_cpp=[])}
+GROUPS = {'m2': Group('m2', filt, c=['props/C07/contracts.c'], repo_cpp=[]), 'm2_512': Group('m2_512', filt, c=['props/C07/contracts.c'], defines=['VF_AVX512'], repo_cpp=[]),
+          'm2_512p': Group('m2_512p', filt, c=['props/C07/contracts.c'], defines=['VF_AVX512', 'VF_PASSTHROUGH_ONLY'], repo_cpp=[])}
 # the input object is abstract (zero-size, contents INPUT(.)): pointer arithmetic into it cannot be bounds-checked by CBMC; the explicit
 # assertion 'read inside the declared input length' in the copy model takes the place of that check
 CHK = ['--bounds-check', '--pointer-check', '--undefined-shift-check', '--signed-overflow-check', '--div-by-zero-check']
@@ -29,6 +30,8 @@ UNITS = [
     Unit('linear_hash_avx512', 'm2_512', 'PoseidonGoldilocks_linear_hash_avx512', harness='hl_PoseidonGoldilocks_linear_hash_avx512', light=True, loops='contract',
          checks=CHK, flags=['--unwind', '14', '--unwinding-assertions'], functions=['PoseidonGoldilocks::linear_hash_avx512 (src/%s) [C-ified, loop contract; two rows]' % P], timeout=3000, tier='thorough',
          note='did not finish within the quick budget (600 s); run in the thorough tier only'),
+    Unit('linear_hash_avx512_passthrough', 'm2_512p', 'PoseidonGoldilocks_linear_hash_avx512', harness='hl_PoseidonGoldilocks_linear_hash_avx512', light=True, loops='contract',
+         checks=CHK, flags=['--unwind', '14', '--unwinding-assertions'], bounded='size <= 4 (pass-through branch of the two-row variant only)', functions=['PoseidonGoldilocks::linear_hash_avx512, size <= 4 (src/%s)' % P], timeout=300),
 ]
 TRUSTED_BASE = ['M2 C-ification token rules (vf/cify.py) and the element-wise memcpy/memset model', 'the permutation is abstracted by a ghost monitor returning arbitrary values (its own correctness is C06)',
                 'CBMC loop-contract instrumentation (goto-instrument --apply-loop-contracts), cadical']
